@@ -511,7 +511,8 @@ func (t *timeTicker) Stop() {
 func (t *timeTicker) Next(now time.Time) time.Time {
 	next := now.Add(t.every)
 	if t.align {
-		next = next.Round(t.every)
+		// The running ticker first ticks at now.Truncate(every)+every.
+		next = next.Truncate(t.every)
 	}
 	return next
 }
